@@ -27,6 +27,7 @@ type genKnobs struct {
 	pInvalid    float64 // field value = invalid
 	noTimeNoise bool    // keep timestamps plausible (reference always pinned)
 	pTimeBack   float64 // timestamps step backwards (still plausible): later messages are not always newer
+	allFields   bool    // every definition of a known message carries all its fields
 }
 
 func defaultKnobs() genKnobs {
@@ -174,6 +175,10 @@ func (g *generator) payloadFor(d *sdef) []byte {
 		switch {
 		case pf != nil && (pf.K == 1 || pf.K == 2):
 			out = append(out, wire(u32le(g.timeValue(pf.K == 2)), d.arch)...)
+		case pf != nil && (pf.K == 3 || pf.K == 4) && f.Size == 4 && g.rng.Intn(6) == 0:
+			// the ends of the coordinate ranges: exactly -90 / just below +90 degrees, +-180
+			v := []uint32{0xC0000000, 0x3FFFFFFF, 0xC0000001, 0x3FFFFFFE, 0x80000001, 0x7FFFFFFE, 0xFFFFFFFF, 0}[g.rng.Intn(8)]
+			out = append(out, wire(u32le(v), d.arch)...)
 		case f.Base == 0x07:
 			// strings: printable + NULs, sometimes unterminated, sometimes UTF-8
 			b := make([]byte, f.Size)
@@ -187,6 +192,15 @@ func (g *generator) payloadFor(d *sdef) []byte {
 			}
 			if g.rng.Intn(4) == 0 && len(b) >= 2 {
 				copy(b, "\xc3\xa9")
+			}
+			if g.rng.Intn(12) == 0 {
+				// nothing but continuation bytes, up to a NUL or the end of the field
+				for i := range b {
+					b[i] = byte(0x80 + g.rng.Intn(0x40))
+				}
+				if len(b) > 1 && g.rng.Intn(2) == 0 {
+					b[len(b)-1] = 0
+				}
 			}
 			out = append(out, b...)
 		default:
@@ -273,7 +287,7 @@ func (g *generator) define(s *Stream, l, t int) {
 	if g.rng.Float64() >= g.k.pZeroFields {
 		perm := g.rng.Perm(len(pm.Fields))
 		n := 1 + g.rng.Intn(g.k.maxFields)
-		if g.rng.Intn(12) == 0 {
+		if g.rng.Intn(12) == 0 || g.k.allFields {
 			n = len(pm.Fields)
 		}
 		if n > len(perm) {
